@@ -1593,18 +1593,18 @@ Definition parse_reference_inline (inp : bytes) : res (option (nat * option (byt
             end in
           let p5 := skip_spaces inp p4 in
           let (p6, ok) := skip_line_end inp p5 in
-          (* the title variable survives the rewind *)
+          (* `title.clear()` where the position is rewound: the title does not survive the rewind *)
           let fin :=
-            if ok then Some p6
+            if ok then Some (p6, title)
             else match title with
                  | [] => None
                  | _ => let q := skip_spaces inp beforetitle in
                         let (q2, ok2) := skip_line_end inp q in
-                        if ok2 then Some q2 else None
+                        if ok2 then Some (q2, @nil byte) else None
                  end in
           match fin with
           | None => Ok None
-          | Some pend =>
+          | Some (pend, title) =>
             let nlab := normalize_label fold lab true in
             match nlab with
             | [] => Ok (Some (pend, None))
